@@ -14,6 +14,9 @@ type XMLOpts struct {
 	MaxDepth int
 	MaxKids  int
 	Small    bool
+	// Wide: some element is repeated 33..70 times (lists longer than mxj's initial
+	// result capacity of 32, decoded with spare capacity in their backing array)
+	Wide bool
 }
 
 var xmlNames = []string{"a", "b", "c", "d", "item", "e-f", "Name", "ns:g", "x1", "list", "ab", "items", "a1", "B"}
@@ -98,6 +101,12 @@ func genXMLElem(t *Tape, b *strings.Builder, o XMLOpts, depth int) {
 		b.WriteString(xmlTexts[t.Draw(len(xmlTexts))])
 	}
 	nk := 1 + t.Small(o.MaxKids)
+	if o.Wide && depth == 1 && t.Draw(2) == 1 {
+		n := 33 + t.Draw(38)
+		for i := 0; i < n; i++ {
+			b.WriteString("<item>" + strconv.Itoa(i) + "</item>")
+		}
+	}
 	for i := 0; i < nk; i++ {
 		ws()
 		if o.Seq {
@@ -231,7 +240,7 @@ func genJSONVal(t *Tape, b *strings.Builder, o JSONOpts, depth int) {
 	case 0, 1, 2:
 		b.WriteString(jsonQuote(jsonStrs[t.Draw(len(jsonStrs))]))
 	case 3:
-		b.WriteString([]string{"0", "1", "-3", "2.5", "1e3", "123456789012", "0.001"}[t.Draw(7)])
+		b.WriteString([]string{"0", "1", "-3", "2.5", "1e3", "123456789012", "0.001", "1234567890123456789", "9007199254740993", "1e18", "-0", "1e21", "18446744073709551616"}[t.Draw(13)])
 	case 4:
 		b.WriteString([]string{"true", "false"}[t.Draw(2)])
 	case 5:
